@@ -864,3 +864,137 @@ func checkSliceSignsSpaced(p *Prog, r *Result, rule string) int {
 	}
 	return n
 }
+
+// R01m: `<<` and `<<-` differ in one thing only — the tabs stripped from the body — and in everything else (the body is
+// queued, written after the line, closed by its delimiter) what holds for one holds for the other. So wherever code of
+// the module tests a redirection operator against the plain here-document operator, the same if/else chain or switch
+// also mentions the dash variant; a test that singles out `<<-` (for the tabs) needs no counterpart.
+func checkHeredocOperatorsTogether(p *Prog, r *Result, rule string) int {
+	n := 0
+	for _, rel := range []string{"syntax", "interp", "expand", "cmd/shfmt"} {
+		pkg := p.Pkg(rel)
+		if pkg == nil {
+			continue
+		}
+		info := pkg.TypesInfo
+		isConst := func(e ast.Expr, name string) bool {
+			var id *ast.Ident
+			switch x := ast.Unparen(e).(type) {
+			case *ast.Ident:
+				id = x
+			case *ast.SelectorExpr:
+				id = x.Sel
+			}
+			if id == nil || id.Name != name {
+				return false
+			}
+			c, ok := info.ObjectOf(id).(*types.Const)
+			return ok && typeName(c.Type()) == "RedirOperator"
+		}
+		mentions := func(root ast.Node, name string) bool {
+			found := false
+			ast.Inspect(root, func(q ast.Node) bool {
+				if e, ok := q.(ast.Expr); ok && isConst(e, name) {
+					found = true
+				}
+				return !found
+			})
+			return found
+		}
+		for _, fd := range p.AllFuncDecls(rel) {
+			if fd.Body == nil || strings.HasSuffix(p.Position(fd.Pos()), "_test.go") || strings.HasSuffix(p.Fset.Position(fd.Pos()).Filename, "tokens_parse.go") || strings.HasSuffix(p.Fset.Position(fd.Pos()).Filename, "_string.go") {
+				continue
+			}
+			k := 0
+			var stack []ast.Node
+			ast.Inspect(fd.Body, func(m ast.Node) bool {
+				if m == nil {
+					stack = stack[:len(stack)-1]
+					return true
+				}
+				stack = append(stack, m)
+				e, ok := m.(ast.Expr)
+				if !ok || !isConst(e, "Hdoc") {
+					return true
+				}
+				// the outermost if chain or the switch that holds the test
+				var scope ast.Node
+				for i := len(stack) - 1; i >= 0; i-- {
+					switch x := stack[i].(type) {
+					case *ast.SwitchStmt:
+						if scope == nil {
+							scope = x
+						}
+					case *ast.IfStmt:
+						// only while the test is in the condition (or in an else-if's condition)
+						if x.Cond.Pos() <= e.Pos() && e.End() <= x.Cond.End() {
+							scope = x
+						} else if scope != nil {
+							if is, ok := scope.(*ast.IfStmt); ok && x.Else == ast.Stmt(is) {
+								scope = x
+							}
+						}
+					}
+				}
+				if scope == nil {
+					return true // an assignment or an argument, not a test
+				}
+				k++
+				n++
+				key := fmt.Sprintf("%s#test %d of the here-document operator also covers <<-", funcKey(rel, fd), k)
+				r.Check(mentions(scope, "DashHdoc"), rule, key, e.Pos(), "the same if chain or switch mentions DashHdoc",
+					"a redirection is tested against `<<` and nothing in the same if chain or switch mentions `<<-`: what is decided there (the body is queued, set aside, printed after the line …) then holds for one kind of here-document only — `cat <<-EOF -n` loses its body")
+				if _, isSel := e.(*ast.SelectorExpr); isSel {
+					stack = stack[:len(stack)-1]
+					return false // the selector's own identifier is the same test
+				}
+				return true
+			})
+		}
+	}
+	return n
+}
+
+// R01n: the line that closes a here-document is its delimiter and nothing else, except that `<<-` allows leading tabs.
+// Printer.indent writes spaces when an indent width is configured; so inside flushHeredocs, which writes bodies and
+// closing lines, it is called only where the indentation is known to be tabs (`p.indentSpaces == 0`).
+func checkHeredocCloserIndentedWithTabs(p *Prog, r *Result, rule string) int {
+	pkg := p.Pkg("syntax")
+	info := pkg.TypesInfo
+	fd := p.FuncDecl("syntax", "Printer.flushHeredocs")
+	indent := lookupFunc(pkg, "Printer.indent")
+	if fd == nil || indent == nil {
+		r.Undecided(rule, "syntax.(Printer).flushHeredocs", token.NoPos, "anchors not found")
+		return 0
+	}
+	g := NewFGraph(info, fd.Body, nil)
+	n := 0
+	inspectNoLit(fd.Body, func(m ast.Node) bool {
+		c, ok := m.(*ast.CallExpr)
+		if !ok || calleeOf(info, c) != indent {
+			return true
+		}
+		n++
+		key := fmt.Sprintf("%s#indentation %d before a closing line is tabs", funcKey("syntax", fd), n)
+		blk := blockContaining(g, c)
+		ok2 := blk != nil && underEdges(g, blk, func(e *FEdge) bool {
+			be, ok := ast.Unparen(e.Cond).(*ast.BinaryExpr)
+			if !ok || e.Tag != nil {
+				return false
+			}
+			fv := selectorField(info, be.X)
+			if fv == nil || fv.Name() != "indentSpaces" {
+				return false
+			}
+			tv, has := info.Types[be.Y]
+			if !has || tv.Value == nil || tv.Value.ExactString() != "0" {
+				return false
+			}
+			return (be.Op == token.EQL && e.Pol) || (be.Op == token.NEQ && !e.Pol)
+		})
+		r.Check(ok2, rule, key, c.Pos(), "reached only where p.indentSpaces == 0",
+			"flushHeredocs indents a closing line on a path where the indentation may be spaces: `<<-` strips leading tabs only, so with Indent(n) the closing word of a nested `<<-` here-document gets n·level spaces in front, is no longer the delimiter, and the here-document runs to the end of the file")
+		return true
+	})
+	return n
+}
